@@ -342,6 +342,21 @@ def discharge_with_invariants(W, s, invs):
                 if g and dnf_implies_atom(g, need):
                     return 'range+invariant', 'index ranges over 0..%s, %s == %s (struct invariant: %s) and the guard implies %s == %s' % (
                         iv['lhs'], iv['lhs'], iv['rhs'], iv['protected_by'][:80], key(ln), iv['rhs'])
+    if s['kind'] == 'BoundsCheck' and t.k == 'assert' and isinstance(t.msg, dict) and 'index' in t.msg and 'len' in t.msg:
+        # the same argument for a slice index (`v: &[T]` indexed directly: MIR has a BoundsCheck assertion instead of a call of Index::index)
+        from .facts import Operand
+        cx = W.ctx(f)
+        g = W.guards(f).stable_guard(s['bb'])
+        ln = cx.expr_operand(Operand(t.msg['len']))
+        r = range_of_item(W, f, Operand(t.msg['index']))
+        for iv in invs:
+            if iv['type'] not in (f.self_ty or f.path):
+                continue
+            if r is not None and key(r[1]) == iv['lhs'] and r[0][0] == 'int':
+                need = cmp_atom('Eq', ln, ('ap', iv['rhs']), True)
+                if key(ln) == iv['lhs'] or (g and dnf_implies_atom(g, need)):
+                    return 'range+invariant', 'index ranges over 0..%s, %s == %s (struct invariant: %s) and the guard implies %s == %s' % (
+                        iv['lhs'], iv['lhs'], iv['rhs'], iv['protected_by'][:80], key(ln), iv['rhs'])
     return None, why
 
 
